@@ -326,7 +326,7 @@ Proof. exact XfrSafety.error_leaves_zone_t. Qed.
 Print Assumptions error_leaves_zone_authenticated.
 
 (* with require_tsig, a message that carries no TSIG never publishes anything (the defect fixed by
-   388fa96 was: the unsigned last message committed and "missing TSIG" was raised afterwards) *)
+   4883021 was: the unsigned last message committed and "missing TSIG" was raised afterwards) *)
 Theorem unsigned_message_never_applies : forall s m s' o,
   req_tsig s = true -> m_tsig m = false ->
   process_message s m = (s', o) -> pub s' = pub s.
